@@ -25,9 +25,20 @@ def _timed_wait(s, cond, what, block, timeout):
     if timeout is None:
         s.yield_point(cond, what=what + ":blocked")
         return True
+    # A timeout may fire before any other task has moved (the other threads may simply not be scheduled for that long): the
+    # waiting task stays runnable, so the base policies let it continue at once and the timeout fires "early". To keep retry
+    # loops (`while not ev.wait(0.1)`) from spinning in the model, the next timed wait of a task whose timeout has just fired
+    # early lets at least one other step pass first.
+    t = s.me()
     mark = s.steps
-    s.yield_point(lambda: cond() or s.steps > mark, what=what + ":timed", timed=True)
-    return cond()
+    if t is not None and t.early_ok:
+        s.yield_point(lambda: True, what=what + ":timed", timed=True)
+    else:
+        s.yield_point(lambda: cond() or s.steps > mark, what=what + ":timed", timed=True)
+    ok = cond()
+    if t is not None:
+        t.early_ok = not (not ok and s.steps == mark + 1)
+    return ok
 
 
 class SimQueue(Shared):
